@@ -143,7 +143,7 @@ def vmessChunkAuthLen (C : Crypto) (dataKey dataIv lenKey lenIv : Bytes) (count 
 /-! ### Trojan -/
 
 def trojanRequest (C : Crypto) (password : Bytes) (cmd : Nat) (target payload : Bytes) : Bytes :=
-  ascii (hex (C.sha224 password)) ++ [13, 10] ++ [u8 cmd] ++ target ++ [13, 10] ++ payload
+  hexBytes (C.sha224 password) ++ [13, 10] ++ [u8 cmd] ++ target ++ [13, 10] ++ payload
 
 def trojanUdpFrame (target payload : Bytes) : Bytes := target ++ be16 payload.length ++ [13, 10] ++ payload
 
